@@ -388,10 +388,13 @@ def nic_inventory() -> List[Tuple[str, str, bool]]:
     return [(name, rel, not pending_of(rel, c)) for rel, name, c in subs]
 
 
+TRANSLATED_IFACE = {("WiredNetworkInterface", "enable"), ("WiredNetworkInterface", "disable"), ("IPWiredNetworkInterface", "enable"),
+                    ("WirelessNetworkInterface", "enable"), ("WirelessNetworkInterface", "disable"), ("IPWirelessNetworkInterface", "enable")}
+
+
 def nic_enable_defs() -> List[Tuple[str, str, str]]:
-    """(class, method, kind) for every enable()/disable() defined at or below NetworkInterface: `abstract`, `guarded` (the two
-    base implementations whose guard lists are read by guard_list), `super+hello` (IP…Interface.enable: super().enable(), the
-    default-gateway hello, return), `plain-disable` (sets enabled False, link/airspace bookkeeping), `other`.  The theorem pins the list: an override in a
+    """(class, method, kind) for every enable()/disable() defined at or below NetworkInterface: `abstract`, `translated` (the six
+    bodies power_prog.py translates statement by statement; their meaning is C12_gen_interface_enable_sem / _disable_sem), `other`.  The theorem pins the list: an override in a
     concrete interface class (which would bypass the node-is-on test) shows up as a new entry."""
     out = []
     for rel, name, c in _subclasses_of("NetworkInterface"):
@@ -403,19 +406,108 @@ def nic_enable_defs() -> List[Tuple[str, str, str]]:
             src = ast.unparse(n)
             if "abstractmethod" in decos:
                 kind = "abstract"
-            elif n.name == "enable" and name in ("WiredNetworkInterface", "WirelessNetworkInterface"):
-                guard_list(n, f"{name}.enable")  # raises unless it is the guarded shape
-                kind = "guarded"
-            elif n.name == "enable" and len(body) == 3 and "super().enable()" in ast.unparse(body[0]) \
-                    and isinstance(body[1], ast.If) and "default_gateway_hello" in ast.unparse(body[1]) and isinstance(body[2], ast.Return):
-                kind = "super+hello"
-            elif n.name == "disable" and name in ("WiredNetworkInterface", "WirelessNetworkInterface") and "self.enabled = False" in src \
-                    and "self.enabled = True" not in src:
-                kind = "plain-disable"
+            elif (name, n.name) in TRANSLATED_IFACE:
+                kind = "translated"   # body translated by power_prog.py (Gen/PowerProg.lean), meaning proved in Props/C12Prog.lean
             else:
                 kind = "other"   # listed, so that the theorem pins which classes have one (today: the two unimportable modules)
             out.append((name + "@" + rel.split("/")[-1], n.name, kind))
     return out
+
+
+# ------------------------------------------------------------------------------------------------ routes registered at RUN TIME
+SOFTWARE_MANAGER = "simulator/system/core/software_manager.py"
+
+
+def runtime_route_sites() -> List[Tuple[str, str, str, str]]:
+    """Every `<manager>.add_request(...)` that runs AFTER `Node._init_request_manager` has built the tree — inside a closure of
+    `_init_request_manager` (the `install` request handler), in any other method of Node, in `SoftwareManager` — as
+    (site, manager attribute, node-level key under which that manager hangs, validator of THAT node-level edge).
+    The manager is followed upwards through the managers built in `_init_request_manager` until the node's own manager `rm`;
+    raises when a run-time registration goes anywhere else (the node's own manager, a manager that is not wired in
+    `_init_request_manager`, a manager attribute that is assigned more than once), because then no table could vouch for it."""
+    node = class_def(parse(BASE), "Node")
+    init = find_method(node, "_init_request_manager")
+    validators: Dict[str, str] = {}
+    rm_name = None
+    for st in init.body:
+        if isinstance(st, ast.Assign) and isinstance(st.value, ast.Call):
+            f, tgt = ast.unparse(st.value.func), ast.unparse(st.targets[0])
+            if f == "super()._init_request_manager":
+                rm_name = tgt
+            elif f.endswith("._NodeIsOnValidator"):
+                validators[tgt] = ".nodeOn"
+            elif f.endswith("._NodeIsOffValidator"):
+                validators[tgt] = ".nodeOff"
+    if rm_name is None:
+        raise ValueError("Node._init_request_manager does not start from super()")
+    # edges built at construction time: child manager attribute -> (parent manager, key, validator)
+    parent: Dict[str, Tuple[str, str, str]] = {}
+    built = set()
+    for st in init.body:
+        if isinstance(st, ast.Assign) and ast.unparse(st.value) == "RequestManager()":
+            built.add(ast.unparse(st.targets[0]))
+        if isinstance(st, ast.Expr) and isinstance(st.value, ast.Call) and isinstance(st.value.func, ast.Attribute) \
+                and st.value.func.attr == "add_request":
+            call = st.value
+            par = ast.unparse(call.func.value)
+            args = list(call.args) + [k.value for k in call.keywords if k.arg in ("name", "request_type")]
+            if len(args) != 2 or not (isinstance(args[1], ast.Call) and ast.unparse(args[1].func) == "RequestType"):
+                raise ValueError(f"Node._init_request_manager: unrecognised add_request `{ast.unparse(call)[:80]}`")
+            func = next((ast.unparse(k.value) for k in args[1].keywords if k.arg == "func"), None)
+            val = next((ast.unparse(k.value) for k in args[1].keywords if k.arg == "validator"), None)
+            if func and func.startswith("self._") and func.endswith("_manager") and isinstance(args[0], ast.Constant):
+                if func in parent:
+                    raise ValueError(f"Node: manager {func} hangs under two routes")
+                if val is not None and val not in validators:
+                    raise ValueError(f"Node: unrecognised validator {val}")
+                parent[func] = (par, str(args[0].value), validators.get(val, ".none") if val else ".none")
+    # a manager attribute must be built once, in _init_request_manager (a later re-assignment would detach the guarded edge)
+    assigned: Dict[str, int] = {}
+    for n in ast.walk(node):
+        if isinstance(n, ast.Assign):
+            for t in n.targets:
+                u = ast.unparse(t)
+                if u.startswith("self._") and u.endswith("_manager"):
+                    assigned[u] = assigned.get(u, 0) + 1
+    top_init_calls = {id(st.value) for st in init.body if isinstance(st, ast.Expr) and isinstance(st.value, ast.Call)}
+    sites: List[Tuple[str, str, str, str]] = []
+
+    def visit(owner: str, fn_name: str, call: ast.Call, self_prefix: str):
+        tgt = ast.unparse(call.func.value)
+        if self_prefix and tgt.startswith(self_prefix):
+            tgt = "self." + tgt[len(self_prefix):]
+        where = f"{owner}.{fn_name}"
+        if tgt in (rm_name, "self._request_manager", "self.node._request_manager"):
+            raise ValueError(f"{where}: a route is added to the node's own manager at run time: `{ast.unparse(call)[:80]}`")
+        if tgt not in parent:
+            raise ValueError(f"{where}: run-time add_request on `{tgt}`, which _init_request_manager does not wire under the node")
+        m = tgt
+        hops = 0
+        while parent[m][0] != rm_name:
+            m = parent[m][0]
+            hops += 1
+            if m not in parent or hops > 6:
+                raise ValueError(f"{where}: `{tgt}` does not hang under the node's manager")
+        if assigned.get(tgt, 0) != 1 or tgt not in built:
+            raise ValueError(f"{where}: manager `{tgt}` is not built exactly once in _init_request_manager")
+        sites.append((where, tgt.replace("self.", ""), parent[m][1], parent[m][2]))
+
+    for meth in [n for n in node.body if isinstance(n, ast.FunctionDef)]:
+        for n in ast.walk(meth):
+            if isinstance(n, ast.Call) and isinstance(n.func, ast.Attribute) and n.func.attr == "add_request":
+                if meth.name == "_init_request_manager" and id(n) in top_init_calls:
+                    continue   # construction time: the class tables
+                inner = meth.name
+                for f in ast.walk(meth):
+                    if isinstance(f, ast.FunctionDef) and f is not meth and any(x is n for x in ast.walk(f)):
+                        inner = f"{meth.name}.{f.name}"
+                visit("Node", inner, n, "")
+    sm = class_def(parse(SOFTWARE_MANAGER), "SoftwareManager")
+    for meth in [n for n in sm.body if isinstance(n, ast.FunctionDef)]:
+        for n in ast.walk(meth):
+            if isinstance(n, ast.Call) and isinstance(n.func, ast.Attribute) and n.func.attr == "add_request":
+                visit("SoftwareManager", meth.name, n, "self.node.")
+    return sites
 
 
 # ------------------------------------------------------------------------------------------------ frame entry points
@@ -713,9 +805,7 @@ def emit() -> str:
     #     Here only: the software block of apply_timestep is the trailing `if operating_state == ON` (guarded_statements below
     #     classifies every top-level statement and raises on anything it does not know).
     # --- interfaces
-    wired = guard_list(find_method(class_def(base, "WiredNetworkInterface"), "enable"), "WiredNetworkInterface.enable")
     air = parse("simulator/network/airspace.py")
-    wireless = guard_list(find_method(class_def(air, "WirelessNetworkInterface"), "enable"), "WirelessNetworkInterface.enable")
     entry = []
     for rel, cname, meths in [
         ("simulator/network/hardware/nodes/host/host_node.py", "NIC", ["receive_frame"]),
@@ -762,9 +852,6 @@ def emit() -> str:
     lines.append(f"def defaultUpCd : Int := {int(defaults['start_up_countdown'])}")
     lines.append(f"def defaultDownCd : Int := {int(defaults['shut_down_countdown'])}")
     lines.append(f"def defaultResetting : Bool := {b(bool(defaults['is_resetting']))}")
-    lines.append("/-- refusals of `WiredNetworkInterface.enable` before `self.enabled = True` -/")
-    lines.append("def wiredEnableGuards : List String := [" + ", ".join(lean_str(g) for g in wired) + "]")
-    lines.append("def wirelessEnableGuards : List String := [" + ", ".join(lean_str(g) for g in wireless) + "]")
     lines.append("/-- does the method start with the `enabled` test (and answer False otherwise)? -/")
     lines.append("def nicEntryGuarded : List (String × Bool) := [" + ", ".join(f"({lean_str(n)}, {b(v)})" for n, v in entry) + "]")
     lines.append("/-- the two node validators as predicates over the node's power state (translated, not spelt) -/")
@@ -772,6 +859,9 @@ def emit() -> str:
     lines.append(f"def nodeIsOffPred : PState → Bool := fun s => {validator_lean(node, '_NodeIsOffValidator')}")
     lines.append(f"def nodeIsOnPredicate : String := {lean_str(on_pred)}")
     lines.append(f"def nodeIsOffPredicate : String := {lean_str(off_pred)}")
+    lines.append("/-- every route registered AFTER construction (site, manager, node-level key the manager hangs under, that edge's validator) -/")
+    lines.append("def runtimeRouteSites : List (String × String × String × Guard) := [" + ", ".join(
+        f"({lean_str(a)}, {lean_str(b)}, {lean_str(c)}, {d})" for a, b, c, d in runtime_route_sites()) + "]")
     lines.append("/-- node-level request routes (key, validator) per concrete node class, subclass additions applied -/")
     lines.append("def classTables : List (String × List Route) := [")
     lines.append(",\n".join(f"  ({lean_str(d)}, {table_lean(rs)})" for d, rs in tables))
